@@ -427,3 +427,36 @@ def hygiene_nested_program(outer, inner, use, reads):
     L.append("local N1: type = @N0(integer)")
     L.append("do local h: N1; print('inside'%s) end" % "".join(", #h.f%d" % k for k in reads))
     return "\n".join(L) + "\n"
+
+
+# ---------------------------------------------------------------- comptime arguments of every kind, falsy ones included
+# (source text, model type id, raw value id, Lua-equality class id (what `==` in poly_args_matches sees), text of the value)
+POLYC_ARGS = [
+    ("false", 5, 50, 50, "false"), ("true", 5, 51, 51, "true"),
+    ("0", 1, 10, 10, "0"), ("1", 1, 11, 11, "1"),
+    ("''", 6, 60, 60, ""), ("'a'", 6, 61, 61, "a"),
+    ("nil", 7, 70, 70, "nil"),
+    ("0.0", 2, 20, 20, "0.0"), ("-0.0", 2, 21, 20, "-0.0"), ("1.5", 2, 22, 22, "1.5"),
+]
+
+
+def polyc_program(calls):
+    """calls: indices into POLYC_ARGS.  One polymorphic function whose body is the text of its comptime argument."""
+    L = ["local function q(c: auto <comptime>, x: integer)",
+         "  return #[tostring(c.value)]#",
+         "end"]
+    for i, a in enumerate(calls):
+        L.append("print('call', %d, q(%s, %d))" % (i, POLYC_ARGS[a][0], i))
+    return "\n".join(L) + "\n"
+
+
+def polyc_expanded(calls):
+    """the hand expansion: one function per distinct comptime argument"""
+    L, seen = [], {}
+    for a in calls:
+        if a not in seen:
+            seen[a] = len(seen)
+            L.append("local function q_%d(x: integer) return %s end" % (seen[a], repr(POLYC_ARGS[a][4]).replace('"', "'")))
+    for i, a in enumerate(calls):
+        L.append("print('call', %d, q_%d(%d))" % (i, seen[a], i))
+    return "\n".join(L) + "\n"
